@@ -11,6 +11,7 @@ from pexpect import EOF, TIMEOUT
 
 from ..core.runner import split_range
 from ..core.watchdog import watchdog, CaseTimeout
+from ..core.acc import confirmed
 from ..workloads.gen_expect import rng_for
 from ..workloads.puppetctl import PEERS, PY, proc_stat
 
@@ -25,12 +26,13 @@ RULE = ('scripted dialogue children (raw mode; prompts, payloads of 0..300 KB, p
         'code; run() must return (20 s watchdog = refuting event). non-trivial = >=2 prompts answered or an EOF/TIMEOUT '
         'event key or a payload >= 64 KB; distinct by case')
 ASSUMPTIONS = ['the dialogue child is in raw mode, so the tty neither echoes nor rewrites bytes',
-               'pauses are either <= T/6 or >= 2.5 T (T = 0.6 s) so that which side of the timeout they fall on does not depend on load']
+               'a violation is reported only if it reproduces in two further serial runs of the same dialogue',
+               'pauses are either <= T/6 or >= 2.5 T (T = 1.0 s) so that which side of the timeout they fall on does not depend on load']
 REQUIRED = ['runs', 'responses_checked', 'output_bytes_compared', 'callback_invocations', 'eof_event_runs', 'timeout_event_runs',
             'exit_status_checks', 'list_form', 'dict_form']
 
 DIALOGUE = os.path.join(PEERS, 'dialogue.py')
-T = 0.6
+T = 1.0
 
 
 def gen_case(rng):
@@ -62,7 +64,9 @@ def gen_case(rng):
         j = rng.choice([x for x in range(len(names)) if x != stop_at])
         overlap = {'pat': names[j][:-1], 'kind': 'str', 'resp': 'o%d\n' % j, 'before': j}
     tail = rng.choice(['eof', 'eof', 'eof', 'long-pause', 'long-pause-then-more'])
-    if stop_at is not None:
+    big = any(s[0] == 'print' and len(s[1]) >= 2 * 60000 for s in steps)
+    if stop_at is not None or big:
+        # (a large payload needs a timeout far above the time it takes to read it: no timeout games there)
         tail = 'eof'
     if rng.random() < 0.6:
         steps.append(['print', b'tail-output\r\n'.hex()])
@@ -78,7 +82,8 @@ def gen_case(rng):
         timeout_event = {'true_at': rng.choice([1, 2, 99])}
     return {'enc': enc, 'steps': steps, 'events': events, 'overlap': overlap, 'form': rng.choice(['dict', 'list']),
             'eof_event': eof_event, 'timeout_event': timeout_event, 'code': code, 'stop_at': stop_at,
-            'withexitstatus': rng.random() < 0.7, 'runu': enc is not None and rng.random() < 0.5}
+            'withexitstatus': rng.random() < 0.7, 'runu': enc is not None and rng.random() < 0.5,
+            'T': 20 if big else T}
 
 
 class Book(object):
@@ -166,8 +171,8 @@ def one(case, acc):
         ret = exc = None
         t0 = time.time()
         try:
-            with watchdog(20):
-                ret = fn(cmd, timeout=T, withexitstatus=case['withexitstatus'], events=events, **kw)
+            with watchdog(20 if case.get('T', T) == T else 120):
+                ret = fn(cmd, timeout=case.get('T', T), withexitstatus=case['withexitstatus'], events=events, **kw)
         except CaseTimeout:
             mech = 'run-does-not-return'
             if case['eof_event'] in ('func-none', 'str'):
@@ -298,4 +303,5 @@ def run_shard(spec, acc):
         return one(spec['replay'], acc)
     rng = rng_for(spec['seed'], spec['shard'], 12)
     for _ in range(spec['n']):
-        one(gen_case(rng), acc)
+        # real children and a real (1 s) timeout: a violation must reproduce in two further serial runs
+        confirmed(gen_case(rng), one, acc)
